@@ -581,12 +581,28 @@ pub fn c02(eng: &mut Engine, rng: &mut Rng, thorough: bool, out: &mut Out) -> Ca
             // intervals on two referents of the one credential: the named timestamp must lie in every local interval. The holder of
             // r2 (revoked at list 1, ts 20) presents the state of list 0 (ts 10); one referent's interval admits 10, the other's
             // starts later. Also with the roles exchanged, and with a fresh state of a valid credential inside both intervals.
-            for (pa, pb) in [("revealed", "predicate"), ("predicate", "revealed"), ("group", "predicate"), ("predicate", "group"), ("global", "predicate"), ("revealed", "global")] {
+            for (pa, pb) in [("revealed", "predicate"), ("predicate", "revealed"), ("group", "predicate"), ("predicate", "group"), ("global", "predicate"), ("revealed", "global"),
+                ("predicate", "predicate2"), ("predicate2", "predicate"), ("revealed", "revealed2"), ("revealed2", "revealed")] {
                 for (held, state_list, lists, cls0, ts) in [("r2_alice", Some(0usize), vec![0usize, 1], "revoked-later:stale-state", 10u64), ("r1_alice", Some(1), vec![0, 1, 2], "valid:fresh-state", 20)] {
                     for (wcls, admits_a, admits_b) in [("first-excludes", false, true), ("second-excludes", true, false), ("both-admit", true, true)] {
                         let iv = |admits: bool| if admits { json!({"from": ts - 5, "to": ts + 40}) } else { json!({"from": ts + 4, "to": ts + 40}) };
-                        let mut plan = rev_plan(rng, eng, held, state_list, None, pa, iv(admits_a));
-                        match pb {
+                        // second predicate / second revealed attribute of the same credential
+                        let second = pa.ends_with('2') || pb.ends_with('2');
+                        let base_a = pa.trim_end_matches('2');
+                        let mut plan = rev_plan(rng, eng, held, state_list, None, if second { "none" } else { pa }, iv(admits_a));
+                        if second {
+                            plan.refs.retain(|r| r.referent != "u_dept");
+                            plan.refs.push(RefPlan { referent: "p_age2".into(), kind: Kind::Pred("age".into(), "LE", 99), cred: Some(0), revealed: false, restrictions: None, non_revoked: None });
+                            plan.refs.push(RefPlan { referent: "a_dept".into(), kind: Kind::Single("dept".into()), cred: Some(0), revealed: true, restrictions: None, non_revoked: None });
+                            let (ra, rb) = if base_a == "predicate" { ("p_age", "p_age2") } else { ("a_name", "a_dept") };
+                            let (first, other) = if pa.ends_with('2') { (rb, ra) } else { (ra, rb) };
+                            for r in plan.refs.iter_mut() {
+                                if r.referent == first { r.non_revoked = Some(iv(admits_a)); }
+                                if r.referent == other { r.non_revoked = Some(iv(admits_b)); }
+                            }
+                        }
+                        match if second { "done" } else { pb } {
+                            "done" => {}
                             "global" => plan.global_nr = Some(iv(admits_b)),
                             "predicate" => { if let Some(r) = plan.refs.iter_mut().find(|r| matches!(r.kind, Kind::Pred(..))) { r.non_revoked = Some(iv(admits_b)); } }
                             "revealed" => { if let Some(r) = plan.refs.iter_mut().find(|r| matches!(r.kind, Kind::Single(_)) && r.revealed) { r.non_revoked = Some(iv(admits_b)); } }
@@ -1582,7 +1598,19 @@ fn break_plan(rng: &mut Rng, plan: &mut Plan, eng: &Engine) {
     let held = plan.creds[ci].held;
     let vals = eng.cast.creds[held].values.clone();
     let k = plan.refs.len();
-    match rng.below(9) {
+    match rng.below(10) {
+        9 => {
+            // one referent answered from two credentials
+            if plan.creds.len() < 2 {
+                let extra = eng.cast.cred(if eng.cast.creds[held].name == "a2_alice" { "a_alice" } else { "a2_alice" });
+                plan.creds.push(CredUse { held: extra, state_list: None, ts_only: None });
+            }
+            if let Some(r0) = plan.refs.iter().find(|r| r.cred == Some(0)).cloned() {
+                let mut dup = r0;
+                dup.cred = Some(1);
+                plan.refs.push(dup);
+            }
+        }
         7 => {
             // nothing selected at all: no credential entry (the request still asks for its referents)
             plan.creds.clear();
